@@ -39,6 +39,7 @@ Definition iomsg_obs (m : iomsg) : obs :=
   | IExtraTooLong => T "IExtraTooLong" | IExtraIncomplete => T "IExtraIncomplete" | IExtraZip64 => T "IExtraZip64"
   | IExtraReserved => T "IExtraReserved" | IExtraSize => T "IExtraSize" | IAuthCode => T "IAuthCode"
   | IWriteZero => T "IWriteZero" | IFillBuffer => T "IFillBuffer" | IInjected => T "IInjected"
+  | IAesTruncated => T "IAesTruncated"
   end.
 Definition err_obs (e : err) : obs :=
   match e with
